@@ -4,6 +4,7 @@
 //
 // Line protocol (one output line per input line):
 //   new <0|1>                     -> <state>
+//   neww <0|1> <offset>           -> <state>      (white box: low_token = high_token = offset)
 //   put <item> <ready> <token>    -> P <parked> <item>:<token>:<ready> <tok> | <state>     or  reject
 //   done                          -> D - | <state>    or   D <item>:<token>:<ready> | <state>
 //   tok                           -> T <tok> | <state>
@@ -71,6 +72,14 @@ int main() {
             std::fflush(stdout);   // if the code under test crashes or hangs, the output is complete up to this sequence
             b->~input_buffer();
             b = new (storage) input_buffer(a != 0);
+            std::printf("%s\n", show_state(*b).c_str());
+        } else if (!std::strcmp(cmd, "neww") && n == 3) {
+            // white box: a fresh buffer whose token counters start at <offset> (e.g. near SIZE_MAX)
+            std::fflush(stdout);
+            b->~input_buffer();
+            b = new (storage) input_buffer(a != 0);
+            b->low_token = (Token)r;
+            b->high_token = (Token)r;
             std::printf("%s\n", show_state(*b).c_str());
         } else if (!std::strcmp(cmd, "put") && n == 4) {
             task_info info;
